@@ -63,6 +63,8 @@ def decorate(rng, g):
             return (k, rn(e[1]))
         if k == 'rep':
             return ('rep', e[1], None if e[2] is None else rn(e[2]), e[3], rn(e[4]))
+        if k == 'assoc':
+            return ('assoc', e[1], rn(e[2]), rn(e[3]))
         if k == 'look':
             return ('look', e[1], rn(e[2]))
         if k == 'named':
@@ -104,6 +106,8 @@ def map_exp(e, f):
         e = (k, map_exp(e[1], f))
     elif k == 'rep':
         e = ('rep', e[1], None if e[2] is None else map_exp(e[2], f), e[3], map_exp(e[4], f))
+    elif k == 'assoc':
+        e = ('assoc', e[1], map_exp(e[2], f), map_exp(e[3], f))
     elif k == 'look':
         e = ('look', e[1], map_exp(e[2], f))
     elif k == 'named':
@@ -235,7 +239,7 @@ def shard(col, shard_i, ngrammars, ninputs):
             texts = [' '.join(rng.choice(words) for _ in range(rng.randint(1, 3))) for _ in range(ninputs)]
             col.count('family.keywords')
         else:
-            g = G.gen_grammar(rng, G.GenCfg(names=0.2, overrides=0.06, skipto=0.04), depth=rng.choice([2, 3]))
+            g = G.gen_grammar(rng, G.GenCfg(names=0.2, overrides=0.06, skipto=0.04, assoc=0.03), depth=rng.choice([2, 3]))
             g = decorate(rng, g)
             g, fam = widen(rng, g)
             col.count('family.' + fam)
